@@ -879,16 +879,17 @@ def scenario_from_trace(steps, capv, handler):
 def stats_delegation(ctx, prog):
     """C14 / C06 through the queuing wrapper: stats() and flush() are exactly the wrapped sink's (static obligations on
     the extracted programs; used by the C14 check)."""
-    x = Extraction(prog, 'bounded', False)
-    for w, prop in (('stats', 'C14'), ('flush', 'C06')):
-        P = x.run_program(w)
-        ctx.paths += len(P.paths)
-        for ops, leaf in P.paths:
-            ctx.obligations += 1
-            kinds = [o['kind'] for o in ops]
-            if kinds != ['wrapped_' + w] or leaf[1] != 'token':
-                ctx.findings.append({'prop': prop, 'clause': 'queuing-%s-delegates' % w, 'pc': [], 'neg': None,
-                                     'detail': "%s() on the queuing sink is not exactly the wrapped sink's %s(): %s -> %r" % (w, w, [fmt_op(o) for o in ops], leaf),
-                                     'scenario': {'kind': 'queue-stats'} if w == 'stats' else None})
-    ctx.stats += x.stats
-    ctx.vacuity['queuing-delegation'] = {k: len(v.paths) for k, v in x.programs.items()}
+    for handler in (False, True):
+        x = Extraction(prog, 'bounded', handler)
+        for w, prop in (('stats', 'C14'), ('flush', 'C06')):
+            P = x.run_program(w)
+            ctx.paths += len(P.paths)
+            for ops, leaf in P.paths:
+                ctx.obligations += 1
+                kinds = [o['kind'] for o in ops]
+                if kinds != ['wrapped_' + w] or leaf[1] != 'token':
+                    ctx.findings.append({'prop': prop, 'clause': 'queuing-%s-delegates' % w, 'pc': [], 'neg': None,
+                                         'detail': "%s() on the queuing sink (handler configured: %s) is not exactly the wrapped sink's %s(): %s -> %r" % (w, handler, w, [fmt_op(o) for o in ops], leaf),
+                                         'scenario': {'kind': 'queue-stats', 'handler': handler} if w == 'stats' else None})
+        ctx.stats += x.stats
+        ctx.vacuity['queuing-delegation-handler-%s' % handler] = {k: len(v.paths) for k, v in x.programs.items()}
